@@ -67,4 +67,25 @@ func init() {
 		Assume:  []string{"fmt.Sprintf(\"%%%02x\", c) modelled exactly (two lower-case hex digits)", "strings.Builder interpreted from source"},
 		Outside: []string{"what a real grpc-go / browser client decodes (transport stubs)", "JSON rendering of the status body"},
 	})
+
+	routeBounds := map[string]string{
+		"quick":    "10 curated rule sets (2 methods, literals aa/bb, *, **, {f}, {f=aa/*}, {f=aa/**}, {f=aa/bb/**}, {f=*/bb}, nested field paths, :vv verbs, GET/POST/custom-* bindings, plus the implicit /Svc/Method rules) x request verbs {GET, POST, other} x every ASCII path of 1..8 bytes starting with '/' (bytes symbolic)",
+		"thorough": "same rule sets x every ASCII path of 1..10 bytes",
+	}
+	routeAssume := []string{"fake protoreflect descriptors (plain Go, embedded interfaces) drive the real addRule/match", "protoreflect.Value leaf helpers (typeOf, valueOfString/Bytes/Iface, get*) modelled; its public methods interpreted from source", "the path starts with '/' (Mux.ServeHTTP prepends one)", "bytes < 0x80 (ASCII tier)", "status.Errorf / fmt texts are placeholders"}
+	routeOutside := []string{"bytes >= 0x80 (unicode letters)", "paths longer than the bound (so the 64-token cap is not reached here)", "typed conversion of captures for non-string kinds (encoding/json reflection is not encoded)", "rule sets outside the listed family", "zero-segment '**' captures"}
+	addProp(&PropSpec{
+		ID:        "C01",
+		Harnesses: []HarnessSpec{{Name: "VerifH_match_sound", Covers: []string{"dispatched", "not-dispatched", "captured"}}},
+		Bounds:    routeBounds, Assume: routeAssume, Outside: routeOutside,
+	})
+	addProp(&PropSpec{
+		ID: "C02",
+		Harnesses: []HarnessSpec{
+			{Name: "VerifH_match_complete", Covers: []string{"dispatched", "no-rule-matches", "literal-won"}},
+			{Name: "VerifH_match_order", Covers: []string{"dispatched", "not-dispatched"}},
+		},
+		Bounds: routeBounds, Assume: routeAssume,
+		Outside: append([]string{"registration orders other than reversal / rotation of the rule list", "literal-vs-wildcard domination inside variable patterns ({f=aa/*} vs {g=*/*}) is unspecified by the property text"}, routeOutside...),
+	})
 }
